@@ -39,7 +39,7 @@ func init() {
 		Controls: []core.Control{
 			{Name: "interpreter-engine-applies-first-runtimes-features", File: "internal/engine/interpreter/interpreter.go", Old: "newCompiler(e.enabledFeatures|api.CoreFeaturesV2, callFrameStackSize", New: "newCompiler(e.enabledFeatures, callFrameStackSize", Rule: "R12.9", Substr: "feature"},
 			{Name: "identity-ignores-debug-info", File: "internal/wasm/module.go", Old: "\tm.ID[0] = boolToByte(m.DWARFLines != nil)\n\th.Write(m.ID[:1])\n", New: "", Rule: "R12.2", Substr: "DWARFLines"},
-			{Name: "listener-arm-masks-host-results", File: "internal/engine/wazevo/call_engine.go", Old: "\t\t\t\tf.Call(ctx, callerModule, s)\n\t\t\t}()\n\t\t\t// Call Listener.After.\n\t\t\tlistener.After(ctx, callerModule, def, s[:len(def.ResultTypes())])", New: "\t\t\t\tf.Call(ctx, callerModule, s)\n\t\t\t}()\n\t\t\t// Call Listener.After.\n\t\t\tclearUpper32Bits(s, def.ParamTypes())\n\t\t\tlistener.After(ctx, callerModule, def, s[:len(def.ResultTypes())])", Rule: "R12.8", Substr: "GoModuleFunctionWithListener"},
+			{Name: "listener-arm-masks-host-results", File: "internal/engine/wazevo/call_engine.go", Old: "\t\t\t\tf.Call(ctx, callerModule, s)\n\t\t\t}()\n\t\t\tclearUpper32Bits(s, def.ResultTypes())\n", New: "\t\t\t\tf.Call(ctx, callerModule, s)\n\t\t\t}()\n\t\t\tclearUpper32Bits(s, def.ParamTypes())\n\t\t\tclearUpper32Bits(s, def.ResultTypes())\n", Rule: "R12.8", Substr: "GoModuleFunctionWithListener"},
 			{Name: "offset-table-guarded-by-instance-flag", File: "internal/engine/interpreter/interpreter.go", Old: "\t\tif parent := frame.f.parent; parent.body != nil && len(parent.offsetsInWasmBinary) > 0 {\n\t\t\tsources = parent.source.DWARFLines.Line(parent.offsetsInWasmBinary[frame.pc])", New: "\t\tif dw := f.moduleInstance.Source.DWARFLines; dw != nil && f.parent.body != nil {\n\t\t\tsources = dw.Line(f.parent.offsetsInWasmBinary[frame.pc])", Rule: "R12.7", Substr: "source-offset"},
 			{Name: "id-flags-merged", File: "internal/wasm/module.go", Old: "\tm.ID[0] = boolToByte(withEnsureTermination)\n\th.Write(m.ID[:1])\n", New: "", Old2: "\tm.ID[0] = boolToByte(m.DWARFLines != nil)\n", New2: "\tm.ID[0] = boolToByte(withEnsureTermination) | boolToByte(m.DWARFLines != nil)\n", Rule: "R12.10", Substr: "kept apart"},
 			{Name: "compile-path-counts-non-nil-listeners", File: "internal/engine/wazevo/engine.go", Old: "\twithListener := len(listeners) > 0\n", New: "\twithListener := false\n\tfor _, l := range listeners {\n\t\tif l != nil {\n\t\t\twithListener = true\n\t\t}\n\t}\n", Rule: "R12.11", Substr: "agree"},
